@@ -37,9 +37,11 @@ class Ctx:
 
     # -- obligations ---------------------------------------------------
     def ok(self, rule, key, detail="", at=None, nontrivial=True):
+        key = key.replace(" ", "")
         self.obs.append({"rule": rule, "key": key, "ok": True, "detail": detail, "at": at, "nontrivial": nontrivial})
 
     def bad(self, rule, key, detail="", at=None):
+        key = key.replace(" ", "")
         self.obs.append({"rule": rule, "key": key, "ok": False, "detail": detail, "at": at, "nontrivial": True})
 
     def check(self, cond, rule, key, detail="", at=None, bad_detail=None):
